@@ -1212,6 +1212,16 @@ impl ListenerBuilder {
             });
         }
 
+        // inbound PROXY-protocol decode does not exist for datagrams: refuse
+        // the knob instead of silently dropping it
+        if self.expect_proxy == Some(true) {
+            return Err(ConfigError::Incompatible {
+                object: ObjectKind::Listener,
+                id: self.address.to_string(),
+                kind: IncompatibilityKind::ProxyProtocol,
+            });
+        }
+
         let mut max_rx_datagram_size = self
             .max_rx_datagram_size
             .unwrap_or(DEFAULT_UDP_MAX_RX_DATAGRAM_SIZE);
